@@ -118,6 +118,11 @@ class ScopeGen(object):
         out = ''
         for _ in range(r.randint(1, 4)):
             k = r.random()
+            if not in_math and r.random() < 0.12:
+                # a font or size declaration (sometimes the same one twice at one level, with definitions in between): it opens no
+                # scope of its own; what is defined after it lives as long as the enclosing group
+                self.features.add('declaration')
+                out += r.choice(['\\small ', '\\small ', '\\bfseries ', '\\itshape ', '\\large '])
             if k < 0.5:
                 out += self.definition(in_math)
             elif k < 0.75 and depth < self.maxdepth:
